@@ -254,15 +254,19 @@ func (s *Sorter) removeCols(row []string, removedCols map[int]struct{}) []string
 	return strs
 }
 
-func (s *Sorter) pkIndices() []uint32 {
-	if len(s.PK) > 0 {
-		return s.PK
-	}
-	sl := make([]uint32, len(s.Columns))
+func allIndices(n int) []uint32 {
+	sl := make([]uint32, n)
 	for i := range sl {
 		sl[i] = uint32(i)
 	}
 	return sl
+}
+
+func (s *Sorter) pkIndices() []uint32 {
+	if len(s.PK) > 0 {
+		return s.PK
+	}
+	return allIndices(len(s.Columns))
 }
 
 func (s *Sorter) SortedBlocks(ctx context.Context, removedCols map[int]struct{}, errChan chan<- error) (blocks chan *Block) {
@@ -332,6 +336,11 @@ func (s *Sorter) SortedBlocks(ctx context.Context, removedCols map[int]struct{},
 
 			// append min row to block
 			row := dec.Decode(minRow)
+			if len(s.PK) == 0 && len(pkIndices) != len(row) {
+				pkIndices = allIndices(len(row))
+				rowPK = make([]string, len(row))
+				blkPK = make([]string, 0, len(row))
+			}
 			slice.CopyValuesFromIndices(row, rowPK, pkIndices)
 			pkOK := pkIsDifferent(rowPK, &prevRowPK)
 			if pkOK {
@@ -461,6 +470,10 @@ func (s *Sorter) SortedRows(ctx context.Context, removedCols map[int]struct{}, e
 			}
 			if minRow == nil {
 				break
+			}
+			if len(s.PK) == 0 && len(pkIndices) != len(minRow) {
+				pkIndices = allIndices(len(minRow))
+				pk = make([]string, len(minRow))
 			}
 			slice.CopyValuesFromIndices(minRow, pk, pkIndices)
 			pkOK := pkIsDifferent(pk, &prevPK)
